@@ -205,6 +205,9 @@ class Package:
             if cfg == "nodetail":        # a user-supplied converter with detailed validation switched off
                 import cattrs
                 self._conv = self.converters.get_converter(cattrs.Converter(detailed_validation=False))
+            elif cfg == "user":          # a converter the application created itself, all defaults
+                import cattrs
+                self._conv = self.converters.get_converter(cattrs.Converter())
             elif cfg == "after_lenient":
                 # a pristine converter in a process where the application ALSO uses a converter it customised to be
                 # lenient (undeclared enum values, any int, any str accepted), and uses it first on every input
